@@ -648,11 +648,12 @@ fn rebased_ok<T: Elem>(y: &dyn DynColl<T>, before: &[T]) -> Option<String> {
 
 fn par_mix<T: Elem>(c: &dyn DynColl<T>, vs: &[T]) -> String {
     let k = vs.len();
-    // `base`: an independently allocated, not yet hashed collection that shows what `c` shows except for one element.
-    // While the workers rebase handles of their own onto it, a helper thread hashes it and the main thread hashes `c`
-    // itself (whose nodes the workers' clones share).
-    let base: Option<Boxed<T>> = if k > 0 && c.len() <= 4096 {
-        c.fresh_copy().and_then(|mut b| {
+    // Private work (never printed, only checked) happens on `twin`, an independently allocated, not yet hashed
+    // collection showing what `c` shows, so that it never writes a memo into a node of a live register.
+    // `base`: another independent, unhashed collection that differs from it in one element. While the workers rebase
+    // clones of `twin` onto `base`, one helper thread hashes `twin` by reference and another hashes `base`.
+    let (twin, base): (Option<Boxed<T>>, Option<Boxed<T>>) = if k > 0 && c.len() <= 4096 {
+        let base = c.fresh_copy().and_then(|mut b| {
             let len = b.len();
             if len > 0 {
                 if let Some(slot) = b.get_mut(len / 2) {
@@ -661,17 +662,22 @@ fn par_mix<T: Elem>(c: &dyn DynColl<T>, vs: &[T]) -> String {
                 b.apply().ok()?;
             }
             Some(b)
-        })
+        });
+        match (c.fresh_copy(), base) {
+            (Some(t), Some(b)) => (Some(t), Some(b)),
+            _ => (None, None),
+        }
     } else {
-        None
+        (None, None)
     };
-    let barrier = Barrier::new(k + 1 + base.is_some() as usize);
-    // (root printed for this thread, first failed self-check, root of an unmodified clone after its rebase)
+    let helpers = if twin.is_some() { 2 } else { 0 };
+    let barrier = Barrier::new(k + 1 + helpers);
+    // (root printed for this thread, first failed self-check, root of an unmodified clone of `twin` after its rebase)
     type W = Result<(Hash256, Option<String>, Option<Hash256>), Error>;
     let (workers, own): (Vec<Option<W>>, Option<Hash256>) =
         std::thread::scope(|s| {
             let barrier = &barrier;
-            let base = &base;
+            let (twin, base) = (&twin, &base);
             let handles: Vec<_> = (0..k)
                 .map(|j| {
                     s.spawn(move || {
@@ -679,12 +685,11 @@ fn par_mix<T: Elem>(c: &dyn DynColl<T>, vs: &[T]) -> String {
                         catch_unwind(AssertUnwindSafe(|| -> W {
                             let mut bad = None;
                             let mut plain_root = None;
-                            // Work on handles of the thread's own that is never printed, only checked.
-                            // Odd threads, before they hash anything: an UNMODIFIED clone (all of its nodes are shared
-                            // with `c`, which the main thread is hashing right now) is rebased on the base; it must
-                            // show what it showed and hash to the root of `c`.
-                            if let (Some(b), 1) = (base, j % 2) {
-                                let mut y = c.clone_box();
+                            // Odd threads, before they hash anything: an UNMODIFIED clone of the twin (all of its nodes
+                            // are shared with the twin, which a helper thread is hashing right now) is rebased on the
+                            // base; it must show what it showed and hash to the root of the twin (= the root of `c`).
+                            if let (Some(t), Some(b), 1) = (twin, base, j % 2) {
+                                let mut y = t.clone_box();
                                 let before: Vec<T> = y.iter().cloned().collect();
                                 match y.rebase_on_dyn(&**b) {
                                     Some(Ok(())) => {
@@ -704,10 +709,10 @@ fn par_mix<T: Elem>(c: &dyn DynColl<T>, vs: &[T]) -> String {
                                 x.apply()?;
                             }
                             let r = x.root();
-                            // Even threads: a clone with the same write plus a push is hashed, then rebased on the
-                            // base (which the helper thread is hashing); it must show, and hash to, what it did.
-                            if let (Some(b), 0, None) = (base, j % 2, &bad) {
-                                let mut y = c.clone_box();
+                            // Even threads: a clone of the twin with the same write plus a push is hashed, then rebased
+                            // on the base (which a helper thread is hashing); it must show, and hash to, what it did.
+                            if let (Some(t), Some(b), 0, None) = (twin, base, j % 2, &bad) {
+                                let mut y = t.clone_box();
                                 if len > 0 {
                                     if let Some(slot) = y.get_mut(j % len) {
                                         *slot = vs[j].clone();
@@ -734,23 +739,29 @@ fn par_mix<T: Elem>(c: &dyn DynColl<T>, vs: &[T]) -> String {
                     })
                 })
                 .collect();
-            let helper = base.as_ref().map(|b| {
-                s.spawn(move || {
-                    barrier.wait();
-                    catch_unwind(AssertUnwindSafe(|| b.root())).ok()
+            let helper_handles: Vec<_> = [twin, base]
+                .into_iter()
+                .flatten()
+                .map(|b| {
+                    s.spawn(move || {
+                        barrier.wait();
+                        catch_unwind(AssertUnwindSafe(|| b.root())).ok()
+                    })
                 })
-            });
+                .collect();
             barrier.wait();
             let own = catch_unwind(AssertUnwindSafe(|| c.root())).ok();
             let workers = handles
                 .into_iter()
                 .map(|h| h.join().ok().flatten())
                 .collect();
-            let helper_ok = helper.map(|h| h.join().ok().flatten().is_some()).unwrap_or(true);
-            (workers, if helper_ok { own } else { None })
+            let helper_roots: Vec<Option<Hash256>> = helper_handles.into_iter().map(|h| h.join().ok().flatten()).collect();
+            // the twin shows what `c` shows: same root; a helper that panicked counts as a panicking thread
+            let ok = helper_roots.iter().all(|r| r.is_some()) && (helper_roots.is_empty() || helper_roots[0] == own);
+            (workers, if ok { own } else { None })
         });
     if own.is_none() || workers.iter().any(|r| r.is_none()) {
-        panic!("par_mix: a thread panicked");
+        panic!("par_mix: a thread panicked (or the independent copy hashed differently)");
     }
     let mut mism: Vec<String> = Vec::new();
     let mut parts: Vec<String> = workers
